@@ -127,6 +127,8 @@ def run(rep, pdb, tier):
         if r is not None:
             from .c08 import rule_recurrence
             rule_recurrence(rep, sv, name, r)
+        # ---- a converged recurrence is never iterated further
+        rule_not_continued(rep, sv, name)
         # ---- loop-carried state is refreshed on every iteration
         rule_carried(rep, sv, name)
         # ---- breakdown-free: the scalars the recurrences divide by / give up on must be definite on the claimed class
@@ -134,6 +136,8 @@ def run(rep, pdb, tier):
     rep.floor("breakdown-exact/", 4)
     rep.floor("breakdown-free/", 4)
     rep.floor("carried/", 4)
+    rep.floor("recurrence-not-continued/", 5)
+    rep.floor("unconfirmed-restarts/", 5)
     rep.floor("residual-tracks-iterate/", 5)
     rep.floor("ok-tested/", 8)
     rep.floor("tested-vector/", 6)
@@ -144,6 +148,55 @@ def run(rep, pdb, tier):
                         "an inner product of a vector with itself (or, for CG on SPD systems, of p with A*p) cannot, an inner product of two different vectors and the norm of a left (A^T-)Lanczos vector can",
                         "NOT decided (not applicable to static analysis): the rate of convergence (O(n) iterations) and agreement with the direct solution to tol*cond(A)"]
     return {}
+
+
+def rule_not_continued(rep, sv, name):
+    """Once the recurrence residual has passed the tolerance test the iteration must not go on with the same recurrence state:
+    the recursively updated residual keeps shrinking geometrically whatever x does, underflows to exactly 0, and the next
+    step length is 0/0 - written into x.  So the `if R <= tol` that guards a success exit must leave the loop on every path
+    (confirmed success, restart from the current iterate, or failure), not only when a further condition also holds."""
+    from .c08 import _is_ok, _pos as pos8
+    ctx = sv.ctx
+    oks = sorted([n for n in walk(sv.fn["body"]) if n.get("k") == "Ret" and any(a is sv.main for a in ancestors(n)) and _is_ok(n)], key=pos8)
+    want = ("op", "-", P(1), ("call", "sparse::Sparse<T>::multiply", P(0), P(2)))
+    seen = []
+    for node in oks:
+        chain = [node] + list(ancestors(node))
+        found = None
+        for i_, a in enumerate(chain):
+            if a is sv.main:
+                break
+            if a.get("k") == "If" and any(z is a.get("then") for z in chain[:i_]):
+                atoms = cond_atoms(ctx, a["cond"], True)
+                for at in atoms:
+                    if at[0] == "cmp" and at[1] in ("<=", "<") and at[3] == TOL:
+                        t = at[2]
+                        d = ctx.def_term(t) if t[0] == "var" and ctx.def_term(t) is not None else t
+                        nd = norm_def(d)
+                        V = nd[0] if nd is not None else None
+                        if V is not None and V[0] == "var" and ctx.def_term(V) is not None and not ctx.mutations.get(V) and not ctx.assigns.get(V[1]):
+                            V = ctx.def_term(V)
+                        if V != want:
+                            found = (a, atoms)          # the outermost `if` carrying the recurrence test wins (keep scanning outwards)
+        if found is None or any(found[0] is x for x in seen):
+            continue
+        seen.append(found[0])
+        a, atoms = found
+        k_ = len(seen)
+        only = len(atoms) == 1
+        leaves = diverges(a["then"])
+        rep.add("recurrence-not-continued/%s#%d" % (name, k_),
+                "the `if R <= tol` on the recurrence residual that guards a success exit leaves the loop on every path (its condition is that test alone and its body never falls through): "
+                "iterating on a converged recurrence drives the recurrence scalars to exactly 0 and writes 0/0 into a correct x", only and leaves, a,
+                "condition is the recurrence test alone=%s body never falls through=%s" % (only, leaves))
+        from .c08 import restart_of
+        others = [r_ for r_ in walk(a["then"]) if r_.get("k") == "Ret" and not _is_ok(r_)]
+        rs = [restart_of(sv, r_) for r_ in others]
+        good = bool(others) and all(x is not None and x[0] for x in rs)
+        rep.add("unconfirmed-restarts/%s#%d" % (name, k_),
+                "when the recomputed residual does not confirm the converged recurrence (it has drifted: large initial guess, small right-hand side, tight tolerance) the solver is restarted from the "
+                "current iterate with the remaining budget - giving up there would fail on well-posed systems that one more pass solves", good, others[0] if others else a,
+                "exits taken without confirmation: %d, all valid restarts=%s" % (len(others), good))
 
 
 def rule_carried(rep, sv, name):
